@@ -54,7 +54,7 @@ def gen_tree(tape, depth, counter):
     elif kind in ("timestamp", "queue"):
         node["children"] = [gen_tree(tape, depth + 1, counter)]
         if kind == "queue":
-            node["code"] = "q%d" % counter[0]
+            node["code"] = None if tape.chance("config", 1, 6, "queue-without-routing-code") else "q%d" % counter[0]
     return node
 
 
@@ -169,7 +169,7 @@ def expected(node, calls, exp_sinks, exp_ff):
             if c[0] == "status":
                 f = dict(c[1])
                 rc = f.get("route_code")
-                f["route_code"] = node["code"] if rc is None else node["code"] + "/" + rc
+                f["route_code"] = node["code"] if rc is None else (rc if node["code"] is None else node["code"] + "/" + rc)
                 outc.append(("status", f))
             else:
                 outc.append(c)
